@@ -722,6 +722,12 @@ class Interp:
             if isinstance(lo, VInt) and is_int_const(lo.t) and lo.t.as_long() == 4 and (hi is None or hi is VNone):
                 return VConst('hexstr_tail', base.py)
             raise OutOfSubset('slice of hex() string other than [4:]')
+        if isinstance(base, VConst) and base.kind == 'binstr':
+            # bin(x) for x >= 0 is '0b' followed by the binary digits of x (spec function bin_digits)
+            x_ = self.as_int(base.py)
+            if not self.implied(x_ >= 0):
+                raise OutOfSubset('slice of bin() of a possibly negative number')
+            base = VStr(z3.Concat(z3.StringVal('0b'), self.call_spec('bin_digits', VInt(x_)).t))
         if isinstance(base, (VSeq, VStr)):
             n = z3.Length(base.t)
             l = self.norm_index(self.as_int(lo), n) if lo is not None and lo is not VNone else z3.IntVal(0)
@@ -1463,7 +1469,7 @@ class Interp:
             self.path.assume(app == bt)
             for fact in self.reg.auto_facts(func, self, argvals, wrap(app)):
                 self.path.assume(fact)
-        elif opaque_ and key not in self.path.instances:
+        elif (opaque_ or self.reg.unfold_limit(func) == 0) and key not in self.path.instances:
             # kept uninterpreted in this VC, but its proved side facts (<f>__facts) still hold
             self.path.instances[key] = app
             for fact in self.reg.auto_facts(func, self, argvals, wrap(app)):
